@@ -265,10 +265,11 @@ theorem C18_mark_covers_container (c : Keep.Cell) (j : Nat) (hj : j ∈ c.refs) 
 
 /-- the Mark functions in /repo are the ones `Keep.toObj` was written against: `Table_Mark` walks all `nslots` slots; the
     texts of Array_Mark, List_Mark, Thread_Mark, Tree_Mark, Tuple_Mark are unchanged; no other type declares Mark.
-    `Thread_Mark` (since fix 80c795e) presents the thread-local table only of the thread that is marking —
-    `if (self is current(Thread)) { mark(t->tls, gc, f); }` — and the thread-local phase of `GC_Mark` hands it exactly
-    `current(Thread)`: for the one Thread object of the keep model (`Keep.threadObj`, the running thread) the test holds, so
-    what the collector is shown of thread-local storage is what it was shown before the repair. -/
+    `Thread_Mark` is `mark(t->tls, gc, f)` without a condition: EVERY Thread object presents its table, whichever thread
+    marks — the running thread's object, which the thread-local phase of `GC_Mark` hands over itself (`gcMarkThreadArg`:
+    `Keep.threadObj`), and a Thread object the program made and holds in a variable (`Keep.Cell.thread`).  (The guard
+    `self is current(Thread)` of fix 80c795e was withdrawn by 0a0ad73: it fails this theorem, and the Thread holders of the
+    workload lose their objects under it.) -/
 theorem C18_mark_functions_as_modelled :
     tableMarkBound = "nslots" ∧
     markFunctions.map (·.1) = ["Array", "List", "Thread", "Tree", "Tuple"] ∧
@@ -276,13 +277,22 @@ theorem C18_mark_functions_as_modelled :
     gcMarkThreadArg = "current(Thread)" := by
   decide +kernel
 
-/-- the text the model was written against is the repaired one: the unguarded `Thread_Mark` of before fix 80c795e (every
-    Thread object presents its table, whichever thread marks — the former finding KF-C13-mark-foreign-tls) is no longer what
-    /repo declares, and the guard it gained names the object `GC_Mark` passes -/
-theorem C18_thread_mark_is_guarded :
-    (markFunctions.lookup "Thread").map (·.1) ≠ some threadMarkOld ∧
-    (markFunctions.lookup "Thread").map (·.1) =
-      some ("struct Thread* t = self; if (self is " ++ gcMarkThreadArg ++ ") { mark(t->tls, gc, f); }") := by
+/-- a Thread object's table is what the model takes it for: `Thread_New` gives every Thread object its own unmanaged
+    `Table` of `String ↦ Ref`, `Thread_Del` frees it, and the Get instance (`get/set/mem/rem(t, key)`) works on the table of
+    the object it is GIVEN — not on the calling thread's — storing a `Ref` to the value -/
+theorem C18_thread_table_as_modelled :
+    threadTable.map (·.2.1) = threadTable.map (·.2.2) ∧
+    threadTable.map (·.1) = ["Thread_New", "Thread_Del", "Thread_Get", "Thread_Set", "Thread_Mem", "Thread_Rem"] := by
+  decide +kernel
+
+/-- **Thread_Mark must present the table of a Thread object that is not the marking thread**: with `set(t, 3, x)` on a
+    Thread object `t` the collector reads `x`'s address when it traces `t`; under the withdrawn repair 80c795e
+    (`Cello.Heap.Cfg.threadGuarded`: `if (self is current(Thread)) { mark(t->tls, gc, f); }`) tracing `t` hands the collector no
+    word at all, although `t` holds `x` — and one collection then frees `x` while the variable still holds `t` and `t` still
+    holds `x`. -/
+theorem C18_thread_table_mark_needed :
+    Keep.addr 0 ∈ Cello.Heap.fields Cello.Heap.Cfg.current (Keep.toObj (.thread [(3, 0)])) ∧
+    Cello.Heap.fields Cello.Heap.Cfg.threadGuarded (Keep.toObj (.thread [(3, 0)])) = [] := by
   decide +kernel
 
 /-- **The loop bound of Table_Mark matters**: after `set(t, 3, x)` on a new Table (5 slots, one item) the only entry sits in
@@ -305,7 +315,8 @@ theorem C18_keep_step_config_independent (c₁ c₂ : Cfg) (op : Keep.KOp) (s t 
   Keep.kstep_sim c₁ c₂ op h hs ht
 
 /-- **C18 for keep programs.** Every program over holders — containers of every kind that declares Mark, Ref/Box chains,
-    thread-local storage, as the sole path to collector-managed objects; insertions, removals with and without `del`,
+    thread-local storage, the table of a Thread object held in a variable (not started, or started and joined later: the
+    started thread reads its entries), as the sole path to collector-managed objects; insertions, removals with and without `del`,
     shrinking, rehashing, allocation pressure, forced collections, every element read back — computes the same list of
     outcomes under any two configurations of the switches (no in-contract hypothesis: refusals agree as well), and ends in
     states that show the program the same objects. -/
@@ -422,12 +433,13 @@ theorem C18_workload_config_independent (cfg : Cfg) (prog : List WOp)
   wrun_sim cfg prog _ _ _ _ (Equiv.refl _) (WF_init _) (WF_init _) (Keep.Sim.refl _) Keep.fresh_init Keep.fresh_init hok
 
 /-- a keep workload: a Table (Int ↦ Ref) and a Table whose KEYS hold the pointers, filled with keys whose home slots lie
-    beyond the item count; a Ref/Box chain; thread-local storage; allocation pressure and forced collections; removals with
-    and without `del`; everything read back -/
+    beyond the item count; a Ref/Box chain; thread-local storage; a Thread object used as a table (and then run);
+    allocation pressure and forced collections; removals with and without `del`; everything read back -/
 def sampleKeep : List Keep.KOp :=
   [.hnew 0 .tableV, .hput 0 3 0 50, .hput 0 4 1 60, .hput 0 8 2 70, .hnew 1 .chain, .hput 1 0 3 30, .hput 1 1 4 40, .hput 1 0 5 55,
    .hnew 2 .tls, .hput 2 9 6 66, .hnew 3 .tableK, .hput 3 4 7 77, .hchurn 100, .gc, .hread 0, .hread 1, .hread 2, .hread 3,
-   .hrel 0 4, .hrem 1 1, .hchurn 200, .gc, .hread 0, .hread 1, .hget 2 9, .hdrop 3, .hdel 0, .gc, .hread 1]
+   .hrel 0 4, .hrem 1 1, .hchurn 200, .gc, .hread 0, .hread 1, .hget 2 9, .hdrop 3, .hdel 0, .gc, .hread 1,
+   .hnew 4 .thread, .hput 4 7 8 80, .hput 4 2 9 90, .hchurn 300, .gc, .hread 4, .hrun 4, .hrel 4 7, .gc, .hrun 4, .hread 4]
 
 /-- the keep theorem is not vacuous: in the default build (collector at work, several collections) the sample program is
     in contract throughout and reads back exactly what it stored — computed through the build without a collector, to which
@@ -437,6 +449,8 @@ example :
       .ok (.read [(3, 0, 50), (4, 1, 60), (8, 2, 70)] (some (5, 2))) ∧
     (Keep.krun Cfg.default sampleKeep Keep.KSt.init).2.getD 15 .ub = .ok (.read [(0, 5, 55), (1, 3, 30), (2, 4, 40)] none) ∧
     (Keep.krun Cfg.default sampleKeep Keep.KSt.init).2.getD 23 .ub = .ok (.read [(0, 5, 55), (1, 4, 40)] none) ∧
+    ((Keep.krun Cfg.default sampleKeep Keep.KSt.init).2.drop 34).take 2 = [.ok (.read [(2, 9, 90), (7, 8, 80)] none), .ok (.ran 2 170)] ∧
+    ((Keep.krun Cfg.default sampleKeep Keep.KSt.init).2.drop 38).take 2 = [.ok (.ran 1 90), .ok (.read [(2, 9, 90)] none)] ∧
     (Keep.krun Cfg.default sampleKeep Keep.KSt.init).2.all (fun r => match r with | .ok _ => true | _ => false) = true := by
   rw [(C18_keep_config_independent Cfg.default ⟨true, true, false⟩ sampleKeep).1]
   decide +kernel
